@@ -1,1 +1,87 @@
 //! Verification hooks (cfg `rten_verif`). Not compiled into ordinary builds.
+//!
+//! [`dispatch`](crate::dispatch::dispatch) always picks the widest instruction
+//! set the CPU supports, so on a given machine only one ISA is ever exercised.
+//! These hooks evaluate a [`SimdOp`] on an ISA chosen by name, using the same
+//! `#[target_feature]` wrappers as `dispatch` so the intrinsics are inlined
+//! exactly as in production.
+
+use crate::SimdOp;
+use crate::ops::Isa;
+
+/// Names of the instruction sets that [`dispatch_on`] can use on this machine,
+/// narrowest first. The last entry is the one `SimdOp::dispatch` selects.
+pub fn available_isas() -> Vec<&'static str> {
+    let mut isas = vec!["generic"];
+    #[cfg(target_arch = "x86_64")]
+    {
+        if crate::arch::x86_64::Avx2Isa::new().is_some() {
+            isas.push("avx2");
+        }
+        if crate::arch::x86_64::Avx512Isa::new().is_some() {
+            isas.push("avx512");
+        }
+    }
+    #[cfg(target_arch = "aarch64")]
+    {
+        if crate::arch::aarch64::ArmNeonIsa::new().is_some() {
+            isas.push("neon");
+        }
+    }
+    isas
+}
+
+/// Evaluate `op` using the instruction set called `isa` (one of
+/// [`available_isas`]). Returns `None`, without evaluating `op`, if that ISA
+/// is unknown or not supported by the current CPU.
+pub fn dispatch_on<Op: SimdOp>(isa: &str, op: Op) -> Option<Op::Output> {
+    match isa {
+        "generic" => Some(op.eval(crate::arch::generic::GenericIsa::new())),
+
+        #[cfg(target_arch = "x86_64")]
+        "avx2" => {
+            // Same target features as `dispatch_avx2` in dispatch.rs.
+            #[target_feature(enable = "avx2")]
+            #[target_feature(enable = "avx")]
+            #[target_feature(enable = "fma")]
+            #[target_feature(enable = "f16c")]
+            unsafe fn eval_avx2<Op: SimdOp>(isa: impl Isa, op: Op) -> Op::Output {
+                op.eval(isa)
+            }
+
+            let isa = crate::arch::x86_64::Avx2Isa::new()?;
+            // Safety: AVX2 is supported
+            Some(unsafe { eval_avx2(isa, op) })
+        }
+
+        #[cfg(target_arch = "x86_64")]
+        "avx512" => {
+            // Same target features as `dispatch_avx512` in dispatch.rs.
+            #[target_feature(enable = "avx512f")]
+            #[target_feature(enable = "avx512vl")]
+            #[target_feature(enable = "avx512bw")]
+            #[target_feature(enable = "avx512dq")]
+            #[target_feature(enable = "f16c")]
+            unsafe fn eval_avx512<Op: SimdOp>(isa: impl Isa, op: Op) -> Op::Output {
+                op.eval(isa)
+            }
+
+            let isa = crate::arch::x86_64::Avx512Isa::new()?;
+            // Safety: AVX-512 is supported
+            Some(unsafe { eval_avx512(isa, op) })
+        }
+
+        #[cfg(target_arch = "aarch64")]
+        "neon" => {
+            let isa = crate::arch::aarch64::ArmNeonIsa::new()?;
+            Some(op.eval(isa))
+        }
+
+        _ => None,
+    }
+}
+
+/// Name of the ISA that [`SimdOp::dispatch`] selects on this machine.
+pub fn preferred_isa() -> &'static str {
+    available_isas().last().copied().unwrap_or("generic")
+}
